@@ -51,7 +51,10 @@ def valid_candidates(t):
     if t == "float":
         return st.one_of(gen.floats(), st.integers(-5, 5))
     if t in ("string", "wstring"):
-        return st.one_of(gen.text(big=False), st.binary(max_size=10))
+        # (bytes that start like an encoding signature are text bytes like any other: nothing is stripped or guessed)
+        return st.one_of(gen.text(big=False), st.binary(max_size=10),
+                         st.sampled_from([b"\xef\xbb\xbfabc", b"\xef\xbb\xbf", b"\xef\xbb", b"\xff\xfea\x00", b"\xfe\xff\x00a",
+                                          b"a\xef\xbb\xbfb", b"\x00abc", b"abc\x00", b"\xc3\xa9", b"\xe2\x80\xa8x", b"+ADw-"]))
     if t == "uri":
         return gen.uris()
     if t == "bytes":
